@@ -151,6 +151,23 @@ func TestC19Store(t *testing.T) {
 				}
 
 				res := gen.NewResource(spec)
+
+				// A soft resource made from the collection's own type pointer
+				// (col.Type.New()), which is how a user creates an element of
+				// exactly the collection's type.
+				if !ts.Struct && rapid.Bool().Draw(t, "fromColType") {
+					ts = gen.TypeSpec{Name: "t"}
+					for _, n := range gen.SortedKeys(model.attrs) {
+						ts.Attrs = append(ts.Attrs, model.attrs[n])
+					}
+
+					for _, n := range gen.SortedKeys(model.rels) {
+						ts.Rels = append(ts.Rels, model.rels[n])
+					}
+
+					spec = &ts
+					res = col.Type.New()
+				}
 				vals := gen.FillResource(t, res, spec, "val")
 				id := rapid.SampledFrom(idPool).Draw(t, "id")
 				res.Set("id", id)
